@@ -123,6 +123,8 @@ def fr(x):
 
 def num_kind(vals):
     """vals: flat list of python/numpy numbers -> (kind, [fractions]); kind 0 real, 1 pure imaginary"""
+    if any(np.ndim(v) > 0 for v in vals):
+        raise NotExtractable("array where a scalar is expected")
     cs = [complex(v) for v in vals]
     if any(c != c or abs(c) == float("inf") for c in cs):
         raise NotExtractable("nan/inf")
